@@ -255,6 +255,32 @@ def _elements(tags):
     return out
 
 
+def _rebuilds(v: ast.AST, sn: str, f: str) -> bool:
+    """the value is the field rebuilt from immutable parts: Point(x.x, x.y, x.z) / Point(*x) / copy.deepcopy(x) for the field itself
+    or for every element of it (tuple / list / set of such elements over `for x in self.f`)"""
+    def fresh(e, var_txt) -> bool:
+        if isinstance(e, ast.Call) and txt(e.func) in ("copy.deepcopy", "deepcopy") and e.args and txt(e.args[0]) == var_txt:
+            return True
+        if isinstance(e, ast.Call) and isinstance(e.func, ast.Name) and e.func.id in ("Point", "Vector"):
+            if len(e.args) == 3 and [txt(a) for a in e.args] == ["%s.%s" % (var_txt, k) for k in ("x", "y", "z")]:
+                return True
+            if len(e.args) == 3 and [txt(a) for a in e.args] == ["%s[%d]" % (var_txt, k) for k in range(3)]:
+                return True
+            if len(e.args) == 1 and isinstance(e.args[0], ast.Starred) and txt(e.args[0].value) == var_txt:
+                return True
+        return False
+    own = "%s.%s" % (sn, f)
+    if fresh(v, own):
+        return True
+    comp = v
+    if isinstance(v, ast.Call) and isinstance(v.func, ast.Name) and v.func.id in ("tuple", "list", "set", "frozenset") and len(v.args) == 1:
+        comp = v.args[0]
+    if isinstance(comp, (ast.GeneratorExp, ast.ListComp, ast.SetComp)) and len(comp.generators) == 1 and not comp.generators[0].ifs \
+            and isinstance(comp.generators[0].target, ast.Name) and txt(comp.generators[0].iter) == own:
+        return fresh(comp.elt, comp.generators[0].target.id)
+    return False
+
+
 def verify_deepcopy_hook(ctx, res, c, h) -> None:
     """__deepcopy__(self, memo) must be the structural deep copy written out: an instance made with __new__ (no
     constructor side effects), every field of the class either deep-copied (copy.deepcopy(self.f, memo)), or shared
@@ -347,6 +373,8 @@ def verify_deepcopy_hook(ctx, res, c, h) -> None:
                 elif (isinstance(v, ast.Call) and isinstance(v.func, ast.Name) and v.func.id in ("list", "tuple", "set", "dict") and len(v.args) == 1
                       and txt(v.args[0]) == "%s.%s" % (sn, f)) or txt(v) in ("%s.%s[:]" % (sn, f), "%s.%s.copy()" % (sn, f)):
                     status[f] = ("container", st)
+                elif _rebuilds(v, sn, f):
+                    status[f] = ("deep", st)  # rebuilt from immutable parts: fresh objects, equal to the original's
                 else:
                     raise AnalysisError("%s: `%s` in %s.__deepcopy__ is not a copy of the same field" % (h.where(st), txt(st)[:60], c.name))
                 continue
@@ -354,6 +382,14 @@ def verify_deepcopy_hook(ctx, res, c, h) -> None:
                 and len(st.value.args) == 1 and txt(st.value.args[0]) == "%s.__dict__" % sn:
             for f in fields:
                 status[f] = ("shared", st)
+            continue
+        if isinstance(st, ast.Expr) and isinstance(st.value, ast.Call) and txt(st.value.func) == "%s.__dict__.update" % new \
+                and len(st.value.args) == 1 and isinstance(st.value.args[0], ast.Call) \
+                and txt(st.value.args[0].func) in ("copy.deepcopy", "deepcopy") and st.value.args[0].args \
+                and txt(st.value.args[0].args[0]) == "%s.__dict__" % sn:
+            # new.__dict__.update(copy.deepcopy(self.__dict__, memo)): every attribute is deep-copied
+            for f in fields:
+                status[f] = ("deep", st)
             continue
         raise AnalysisError("%s: unrecognised statement `%s` in %s.__deepcopy__" % (h.where(st), txt(st)[:60], c.name))
     if new is None or not returned:
@@ -382,6 +418,57 @@ def verify_deepcopy_hook(ctx, res, c, h) -> None:
                           % (c.name, f, why), construct="%s.__deepcopy__ field %s" % (c.name, f))
 
 
+def verify_copy_hook(ctx, res, c, h) -> None:
+    """__copy__(self) must be the default shallow copy written out: an instance made with __new__ whose attributes are the
+    original's (`new.__dict__.update(self.__dict__)` or one `new.f = self.f` per field), returned."""
+    eng = ctx.types
+    if len(h.params) != 1:
+        raise AnalysisError("%s: __copy__ must take (self)" % h.where())
+    sn = h.params[0]
+    fields = set()
+    for k in c.mro():
+        fields |= {f for (cn, f) in eng.fields if cn == k.name}
+    body = [s_ for s_ in h.node.body if not (isinstance(s_, ast.Expr) and isinstance(s_.value, ast.Constant))]
+    cls_names = {"%s.__class__" % sn, "type(%s)" % sn, c.name}
+    new = None
+    got = set()
+    returned = False
+    for st in body:
+        if isinstance(st, ast.Assign) and len(st.targets) == 1 and isinstance(st.targets[0], ast.Name):
+            v = st.value
+            if txt(v) in ("%s.__class__" % sn, "type(%s)" % sn):
+                cls_names.add(st.targets[0].id)
+                continue
+            if isinstance(v, ast.Call) and isinstance(v.func, ast.Attribute) and v.func.attr == "__new__" and len(v.args) == 1 \
+                    and txt(v.func.value) in cls_names | {"object"} and txt(v.args[0]) in cls_names and new is None:
+                new = st.targets[0].id
+                continue
+        if new is not None and isinstance(st, ast.Expr) and isinstance(st.value, ast.Call) and txt(st.value.func) == "%s.__dict__.update" % new \
+                and len(st.value.args) == 1 and txt(st.value.args[0]) == "%s.__dict__" % sn:
+            got |= fields
+            continue
+        if new is not None and isinstance(st, ast.Assign) and len(st.targets) == 1 and txt(st.targets[0]) == "%s.__dict__" % new \
+                and txt(st.value) in ("dict(%s.__dict__)" % sn, "%s.__dict__.copy()" % sn):
+            got |= fields
+            continue
+        if new is not None and isinstance(st, ast.Assign) and len(st.targets) == 1 and isinstance(st.targets[0], ast.Attribute) \
+                and txt(st.targets[0].value) == new and txt(st.value) == "%s.%s" % (sn, st.targets[0].attr):
+            got.add(st.targets[0].attr)
+            continue
+        if isinstance(st, ast.Return):
+            returned = new is not None and isinstance(st.value, ast.Name) and st.value.id == new
+            continue
+        raise AnalysisError("%s: `%s` in %s.__copy__ is not part of the shallow copy written out" % (h.where(st), txt(st)[:60], c.name))
+    if new is None or not returned:
+        raise AnalysisError("%s: %s.__copy__ does not return a new instance made with __new__" % (h.where(), c.name))
+    missing = sorted(fields - got)
+    res.ob("R20.4", h.where(), "%s.__copy__ is the default shallow copy" % c.name, not missing,
+           "every attribute of the original is carried over" if not missing else "attributes %s are not carried over" % missing)
+    if missing:
+        res.violation("R20.4", h, h.node, "%s.__copy__ does not carry over %s: the copy lacks attributes the original has and is not equal to it"
+                      % (c.name, missing), construct="%s.__copy__ missing %s" % (c.name, ",".join(missing)))
+
+
 def show_tags(ty) -> str:
     from ..types import show
     return show(ty)
@@ -395,8 +482,11 @@ def r204(ctx, res):
         n += 1
         hooks = sorted(COPY_HOOKS & (set(c.methods) | set(c.method_aliases)))
         slots = False  # __slots__ alone does not change copying: the default deep copy handles slotted objects (copyreg)
-        for hk in c.copy_hooks.values():
-            verify_deepcopy_hook(ctx, res, c, hk)
+        for hname, hk in sorted(c.copy_hooks.items()):
+            if hname == "__copy__":
+                verify_copy_hook(ctx, res, c, hk)
+            else:
+                verify_deepcopy_hook(ctx, res, c, hk)
         ok = not hooks and not slots
         res.ob("R20.4", "%s:%d" % (c.module.relpath, c.node.lineno), c.name, ok,
                "plain attribute object: default deepcopy is structural" if ok else "defines %s" % (hooks + (["__slots__"] if slots else [])))
